@@ -191,6 +191,8 @@ class NP(object):
 
     def delete(self, arr, obj, axis=None):
         self._u('delete')
+        if isinstance(arr, Opaque):
+            return Opaque('delete', of=arr, idx=[pysym._toint(i) for i in obj], axis=axis)
         if not isinstance(arr, _np.ndarray):
             raise pysym.CheckerError('np.delete on %s needs a contract' % type(arr).__name__)
         idx = [pysym._toint(i) for i in obj] if isinstance(obj, (list, tuple)) else pysym._toint(obj)
